@@ -107,9 +107,7 @@ def tsc_case(run, tsc, rng, k):
     off_cells = [0.0, 0.5, -0.5, 0.25, 0.0, -0.75, 0.875, -0.9][(k // 2) % 8]  # any sub-cell offset
     if exact and off_cells not in (0.0, 0.5, -0.5, -0.75, 0.875):
         off_cells = 0.5
-    offset = off_cells * box / shape[0] if shape[0] == shape[1] == shape[2] else 0.0
-    if offset == 0.0:
-        off_cells = 0.0
+    offset = off_cells * box / shape[0]  # one length for all axes (also on anisotropic grids, where it is a different number of cells per axis)
     nthread = int(rng.integers(1, 17))
     npart = None
     if k % 4 == 1 and nthread > 1 and n1d // 4 >= 2:
@@ -168,6 +166,30 @@ def tsc_case(run, tsc, rng, k):
             refabs = refabs + np.abs(pre)
         if compare(run, out, ref, tol_grid(refabs, shape, pos_in.dtype.type, gdt), desc, 'tsc-kernel'):
             return
+    # a second call with the *same array objects* after modifying them in place (no state may survive between calls)
+    if k % 9 == 5 and N >= 2 and pre is None and not outside:
+        buf = pos_in.copy()
+        wbuf = None if w is None else w.copy()
+        g1 = np.zeros(shape, dtype=gdt)
+        with warnings.catch_warnings():
+            warnings.simplefilter('ignore')
+            try:
+                tsc.tsc_parallel(buf, g1, box, weights=wbuf, nthread=nthread, wrap=wrap, npartition=npart, sort=sort, coord=coord, offset=offset)
+                buf[:] = buf[::-1].copy()  # another particle order ...
+                buf[:, coord] = families(rng, shape, box, buf.dtype.type, fam, N)[:, coord]  # ... and other coordinates along the partition axis
+                if wbuf is not None:
+                    wbuf *= 2
+                g2 = np.zeros(shape, dtype=gdt)
+                tsc.tsc_parallel(buf, g2, box, weights=wbuf, nthread=nthread, wrap=wrap, npartition=npart, sort=sort, coord=coord, offset=offset)
+            except ValueError:
+                g2 = None
+        if g2 is not None:
+            run.ev()
+            run.count('same_object_second_call_checks')
+            ref2 = mas.ref_paint(buf.astype(np.float64), shape, box, wbuf, offset=offset, kind='tsc')
+            refabs2 = mas.ref_paint(buf.astype(np.float64), shape, box, wbuf, offset=offset, kind='tsc', absw=True)
+            if compare(run, g2, ref2, tol_grid(refabs2, shape, buf.dtype.type, gdt), dict(desc, second_call_same_arrays=True), 'tsc-state-between-calls'):
+                return
     # non-negativity for non-negative weights
     if pre is None and out.min() < 0:
         return run.violation('tsc-negative-deposit', dict(min=float(out.min()), **desc))
@@ -272,16 +294,18 @@ def get_field_case(run, ps, rng, k):
     pos = rng.uniform(0, box, (N, 3)).astype(np.float32)
     d = [0.0, 0.5 * box / n][(k // 2) % 2]
     nthread = int(rng.choice([1, 2, 4]))
+    w = rng.uniform(0.2, 3.0, N).astype(np.float32) if (k // 4) % 2 else None
     run.ev()
     with warnings.catch_warnings():
         warnings.simplefilter('ignore')
-        f = ps.get_field(pos.copy(), box, n, paste, w=None, d=d, nthread=nthread)
+        f = ps.get_field(pos.copy(), box, n, paste, w=None if w is None else w.copy(), d=d, nthread=nthread)
     kind = paste.lower()
     pref = (pos.astype(np.float32) + np.float32(d)).astype(np.float64) if paste == 'CIC' else pos.astype(np.float64)
-    ref = mas.ref_paint(pref, (n, n, n), box, None, offset=(d if paste == 'TSC' else 0.0), kind=kind)
+    # documented normalisation: field * n^3 / len(pos) - 1 (also when weights are given)
+    ref = mas.ref_paint(pref, (n, n, n), box, w, offset=(d if paste == 'TSC' else 0.0), kind=kind)
     ref_over = ref * (n**3 / N) - 1.0
     tol = tol_grid(ref, (n, n, n), np.float32, np.float32) * (n**3 / N) + 4e-6
-    run.nt(('get_field', paste, n, d != 0, nthread))
+    run.nt(('get_field', paste, n, d != 0, nthread, w is not None))
     compare(run, f, ref_over, tol, dict(kernel='get_field', paste=paste, nmesh=n, box=box, N=N, d=d, nthread=nthread), 'get-field')
 
 
@@ -303,7 +327,7 @@ def check(run):
         cic_case(run, cic, rng, k)
         if run.too_many():
             return
-    for k in range(24 if run.quick else 400):
+    for k in range(32 if run.quick else 400):
         get_field_case(run, ps, rng, k)
     run.sample(dict(kernel='cic', family='dyadic', shape=[8, 16, 4], box=64.0, exact=True))
 
